@@ -54,3 +54,18 @@ package didweb
 //@   ensures [only-2xx-and-allowed-content-types] isNilIface(result.2) ==> isNilIface(ret(call (core.HTTPRequestDoer).Do #1).1)
 //@        && ret(call (core.HTTPRequestDoer).Do #1).0.StatusCode >= 200 && ret(call (core.HTTPRequestDoer).Do #1).0.StatusCode < 300
 //@        && (ret(call mime.ParseMediaType #1).0 == "application/did+ld+json" || ret(call mime.ParseMediaType #1).0 == "application/did+json" || ret(call mime.ParseMediaType #1).0 == "application/json")
+
+// The production resolver's HTTP client follows redirects only within the origin it was sent to.
+//@ func client.NewWithCache
+//@   trusted
+//@   benign
+//@   ensures result != nil
+//@ func (*client.StrictHTTPClient).SameOriginRedirectsOnly
+//@   trusted
+//@   benign
+//@   ensures result == s
+//@ func NewResolver
+//@   prop C18
+//@   ensures [same-origin-redirects-only] result != nil && did(call (*client.StrictHTTPClient).SameOriginRedirectsOnly #1)
+//@        && result.HttpClient == core.HTTPRequestDoer(ret(call (*client.StrictHTTPClient).SameOriginRedirectsOnly #1))
+//@        && arg(call (*client.StrictHTTPClient).SameOriginRedirectsOnly #1, 0) == ret(call client.NewWithCache #1)
